@@ -37,9 +37,15 @@ package vgirpc
 // its "result" column is a non-empty binary column, whose first value is returned (as a copy);
 // an exception batch, a log-only stream, a non-binary or missing column are all "not a result".
 //
+//@ func ReadUnaryResult$1
+//@   property C01
+//@   # (repaired defect: a result column whose offsets run backwards made (*array.Binary).Value panic)
+//@   # the recovering literal answers "not a result" and touches nothing when it recovered nothing
+//@   ensures [untouched] !recovered ==> ok == old(ok) && result == old(result) && schema == old(schema)
+//@   ensures [local_notaresult] recovered ==> !ok && result == nil && schema == nil
 //@ func ReadUnaryResult
 //@   property C01
-//@   nopanic(index)
+//@   nopanic(index, call, recovered)
 //@   # the scan moves past a batch only if it is a zero-row log batch that is NOT an exception
 //@   loop 0 onrepeat [skiponlylogs] numRows(batch) <= 0 && isMeta && found && level != "EXCEPTION"
 //@   at call bytes.Clone assert [firstvalue] numRows(batch) > 0 && isBinary && len(indices) > 0
